@@ -532,7 +532,12 @@ def run(rep: Report) -> None:
         rep.ok("R07.10", "_cancel_factors", note="no loop that pops under two keys")
     # mypy diagnostics in the planner zone
     zone_files = {"conversions.py"}
-    errs = [e for e in getattr(prog, "mypy_errors", []) if any(f"/{z}:" in e or e.startswith(f"src/measured/{z}:") for z in zone_files)]
+    # only the diagnostics that stand for an exception at run time (an operator, call, attribute or subscript the operand's type does not
+    # support); `[assignment]`, `[return-value]` and the annotation hygiene codes describe the annotations, not what the statement does
+    RUNTIME_CODES = ("[operator]", "[arg-type]", "[call-arg]", "[call-overload]", "[attr-defined]", "[union-attr]", "[index]", "[name-defined]",
+                     "[misc]", "[type-var]", "[not-callable]")
+    errs = [e for e in getattr(prog, "mypy_errors", []) if any(f"/{z}:" in e or e.startswith(f"src/measured/{z}:") for z in zone_files)
+            and any(c in e for c in RUNTIME_CODES)]
     rep.check("R07.5", "mypy:conversions.py", not errs,
               f"mypy reports type errors in the planner: {errs[:2]} - a latent TypeError on the conversion path", "src/measured/conversions.py")
     for f in sorted(reach.reached):
